@@ -68,7 +68,7 @@ def color_spec(draw):
 
 NAMES = ["kitty", "kitty", "konsole", "konsole", "WezTerm", "iTerm2", "tmux", "XTerm", "foot", "mlterm", "Konsole", "contour"]
 VERSIONS = {
-    "kitty": ["0.19.3", "0.20.0", "0.20.1", "0.25.0", "0.26.5", "0.x", "1.0.0", "0.20"],
+    "kitty": ["0.19.3", "0.20.0", "0.20.1", "0.25.0", "0.26.5", "0.x", "1.0.0", "0.20", "0.21", "1.0", "1", "0.20.0.1"],
     "konsole": ["21.12.3", "22.04.0", "22.03.90", "22.04", "23.08.1", "22.4.0a", "22.12.0"],
 }
 
